@@ -34,6 +34,23 @@ CLAIMED = {
    note=TRUST + '"Toggle restores bit-for-bit" rests on update_shell_info being a function of its inputs (its postcondition S1 determines the four statistics) plus the setter frame; the '
         'composition step is argued in DESIGN.md, not machine-checked. Runtime monitor (replay leg) checks the toggle concretely.',
    tech='contract-based deductive verification: frame conditions + loop step contracts, z3', ref='7 C12'),
+ 'C13': dict(
+   text='Deductive proof on the real AST of Union.split / trim / sample (reset inlined): the record invariant InvU (one member, point set, volume and may-split flag per '
+        'ellipsoid; volumes current; every member has more points than dimensions; an unblocked member has at least 2*n_points_min points) is preserved on every exit of every '
+        'operation, hence under any operation order of any length; a successful split yields two clusters of at least n_points_min points that partition the points of the split '
+        'member and whose summed volume does not exceed it, for an ARBITRARY responsibility matrix (the GMM is havoc); a refused operation leaves members, points and volumes '
+        'unchanged; no numpy operation can raise (length/shape/index obligations).',
+   note=TRUST + 'Member bounds are abstract (compute needs more rows than dimensions; C07). Counting facts of a[idx]=v, bincount and argsort are library axioms. Bounded leg: '
+        'operation words up to length 3/4 on three point sets against the real Union.',
+   tech='contract-based deductive verification: representation invariant over all exits, z3', ref='7 C13'),
+ 'C15': dict(
+   text='Deductive proof on the real AST of Prior.add_parameter / dimensionality / unit_to_physical: a normal exit appends exactly one (key, dist) record as declared and keeps the '
+        'prior invariant (equal lengths, distinct string keys, every link points to an earlier non-link key); an exceptional exit is ValueError/TypeError and leaves keys and dists '
+        'unchanged; dimensionality is the number of free parameters; column i of unit_to_physical is the inverse CDF of the i-th free parameter applied to column i (loop invariant), '
+        'shape preserved, input untouched.',
+   note=TRUST + 'Python values are an uninterpreted sort with class predicates (str/tuple/number/has-isf disjoint). physical_to_dictionary has no proof (dict theory not modelled): '
+        'bounded enumeration of all declaration sequences up to length 2 (quick) / 3 (thorough) on the real Prior.',
+   tech='contract-based deductive verification + bounded enumeration for the dictionary step', ref='7 C15'),
  'C16': dict(
    text='Deductive proof: PhaseShift.transform equals the spec shift on periodic columns and is the identity elsewhere (loop invariant, frame, '
         'input array untouched) over the reals; range closure [0,1) proved in IEEE binary64 (z3 FP theory, numpy % semantics) for both directions; '
